@@ -72,6 +72,13 @@ def run(P, rep, tier):
     rep.floor("C15.R3", 18)
     rep.floor("C15.R4", 6)
     rep.floor("C15.R5", 6)
+    # refinement against the pinned tree for every function the rules above looked at (rules/pinned.py)
+    import os as _os
+
+    if not _os.environ.get("MDSA_PINNED_GEN"):
+        from .pinned import refine
+
+        refine(P, rep, ctx, "C15")
 
 
 # ------------------------------------------------------------------------------------------- R1
